@@ -15,6 +15,7 @@ import (
 	"github.com/grafana/carbon-relay-ng/aggregator"
 	"github.com/grafana/carbon-relay-ng/cfg"
 	"github.com/grafana/carbon-relay-ng/matcher"
+	"github.com/grafana/carbon-relay-ng/rewriter"
 	"github.com/grafana/carbon-relay-ng/table"
 	m20 "github.com/metrics20/go-metrics20/carbon20"
 	"pgregory.net/rapid"
@@ -311,6 +312,7 @@ func TestPropValidity(t *testing.T) {
 		lastBad := map[string]string{}
 		nt := false
 		var lines []string
+		var adminOps []string
 		for i := 0; i < n; i++ {
 			line := genLine(t)
 			if ordered {
@@ -346,11 +348,53 @@ func TestPropValidity(t *testing.T) {
 					nt = true
 				}
 			}
+			// now and then the table is changed at run time in a way that cannot concern any line (an entry that matches
+			// nothing is added and deleted again, a filter is "modified" to what it was): the configured levels, the order
+			// switch and everything else must stay what the configuration said
+			if rapid.IntRange(0, 7).Draw(t, "adminop") == 0 {
+				op := rapid.SampledFrom([]string{"route", "blacklist", "rewriter", "aggregation", "modRoute"}).Draw(t, "adminkind")
+				adminOps = append(adminOps, fmt.Sprintf("%s@%d", op, i))
+				var err error
+				switch op {
+				case "route":
+					never, _ := matcher.New("\x01never", "", "", "", "", "")
+					tab.AddRoute(h.NewCaptureRoute("c02tmp", never))
+					err = tab.DelRoute("c02tmp")
+				case "blacklist":
+					never, _ := matcher.New("\x01never", "", "", "", "", "")
+					tab.AddBlacklist(&never)
+					idx := 0
+					if black != nil {
+						idx = 1
+					}
+					err = tab.DelBlacklist(idx)
+				case "rewriter":
+					rw, rerr := rewriter.New("\x01never", "x", "", -1)
+					if rerr != nil {
+						t.Fatalf("HARNESS-ERROR: %v", rerr)
+					}
+					tab.AddRewriter(rw)
+					err = tab.DelRewriter(0)
+				case "aggregation":
+					nm, _ := matcher.New("", "", "", "", "^\x01never$", "")
+					tmp, aerr := aggregator.NewMocked("count", nm, "c02tmp", false, 10, 100, false, make(chan []byte, 10), 0, time.Now, make(chan time.Time))
+					if aerr != nil {
+						t.Fatalf("HARNESS-ERROR: %v", aerr)
+					}
+					tab.AddAggregator(tmp)
+					err = tab.DelAggregator(1)
+				case "modRoute":
+					err = tab.UpdateRoute("cap", map[string]string{"prefix": ""})
+				}
+				if err != nil {
+					t.Fatalf("HARNESS-ERROR: runtime change %s failed: %v", op, err)
+				}
+			}
 			tab.Dispatch(line)
 		}
 		h.AggBarrier(agg)
 		d := h.ReadTableCounters().Sub(c0)
-		ctx := fmt.Sprintf("levels legacy=%s(omitted=%v) m20=%s(omitted=%v) validate_order=%q blacklist=%s lines=%q", legacy, omitL, m20lvl, omitM, order, blackDesc, lines)
+		ctx := fmt.Sprintf("levels legacy=%s(omitted=%v) m20=%s(omitted=%v) validate_order=%q blacklist=%s runtime-changes=%v lines=%q", legacy, omitL, m20lvl, omitM, order, blackDesc, adminOps, lines)
 		if int(d.In) != n {
 			t.Fatalf("inbound counter moved by %d for %d lines; %s", d.In, n, ctx)
 		}
@@ -410,7 +454,7 @@ func TestPropValidity(t *testing.T) {
 				time.Sleep(100 * time.Microsecond)
 			}
 		}
-		rec.Case(ctx, nt, "legacy="+legacy, "m20="+m20lvl, "validate_order="+order, fmt.Sprintf("omitted-key=%v", omitL || omitM), fmt.Sprintf("invalid>0=%v", nInvalid > 0), fmt.Sprintf("valid>0=%v", len(wantFwd) > 0))
+		rec.Case(ctx, nt, "legacy="+legacy, "m20="+m20lvl, "validate_order="+order, fmt.Sprintf("omitted-key=%v", omitL || omitM), fmt.Sprintf("invalid>0=%v", nInvalid > 0), fmt.Sprintf("valid>0=%v", len(wantFwd) > 0), fmt.Sprintf("runtime-table-change-between-lines=%v", len(adminOps) > 0))
 		rec.Num("lines", int64(n))
 	})
 }
